@@ -82,6 +82,9 @@ type c03Case struct {
 	Deep   bool   `json:"deep"`
 	// Listing: the emitter was created with listing generation on (what is emitted must not depend on it)
 	Listing bool `json:"listing,omitempty"`
+	// At: the emitter's PC before the call (the exploration keeps emitting into one emitter, so calls are
+	// made at many positions, across bank seams); the replay places a fresh emitter there
+	At uint32 `json:"at,omitempty"`
 }
 
 // c03Emit calls the method on e with the operand value encoded in arg; returns the expected operand bytes.
@@ -169,6 +172,8 @@ type c03Runner struct {
 	x         *cpuCtx
 	spec      map[string]c03Spec
 	listing   bool
+	base      uint32 // where fresh() places the emitter (0 = $008000)
+	lastPC    uint32 // PC before the last checked call
 }
 
 func (rn *c03Runner) fresh(p byte) {
@@ -176,7 +181,11 @@ func (rn *c03Runner) fresh(p byte) {
 		rn.buf = make([]byte, 1<<16)
 	}
 	rn.e = asm.NewEmitter(rn.buf, rn.listing)
-	rn.e.SetBase(0x008000)
+	if rn.base != 0 {
+		rn.e.SetBase(rn.base)
+	} else {
+		rn.e.SetBase(0x008000)
+	}
 	rn.e.AssumeSEP(asm.Flags(p & 0x30))
 	rn.p = p & 0x30
 	rn.boundName = ""
@@ -200,6 +209,7 @@ func (rn *c03Runner) check(name string, sp c03Spec, arg uint32, p byte, deep boo
 		rn.bound, rn.boundName = b, name
 	}
 	n0, pc0 := e.Len(), e.PC()
+	rn.lastPC = pc0
 	operand, pn, err := c03Call(rn.bound, name, arg)
 	if err != nil {
 		return "oracle-broken", err.Error()
@@ -270,6 +280,24 @@ func (rn *c03Runner) check(name string, sp c03Spec, arg uint32, p byte, deep boo
 			return "unexplained:dry-run-length:" + name, fmt.Sprintf("%s: an emitter without a target buffer advanced PC by %d, the instruction is %d bytes long", desc(), de.PC()-dpc, ilen)
 		}
 	}
+	// a VALUE COPY of a fresh emitter (the struct is exported and copyable; a caller may embed it): the
+	// instruction must be emitted into the copy, whose Len/PC/Bytes account for it
+	{
+		orig := asm.NewEmitter(make([]byte, 8), rn.listing)
+		orig.SetBase(0x008000)
+		orig.AssumeSEP(asm.Flags(p & 0x30))
+		cp := *orig
+		b, err := c03Bind(&cp, name)
+		if err != nil {
+			return "oracle-broken", err.Error()
+		}
+		if _, cpn, _ := c03Call(b, name, arg); cpn != nil {
+			return "unexplained:value-copy-refuses:" + name, fmt.Sprintf("%s: a value copy of the emitter refused the call: %v", desc(), cpn)
+		}
+		if cp.Len() != ilen || cp.PC() != 0x008000+uint32(ilen) || len(cp.Bytes()) != ilen || cp.Bytes()[0] != op || orig.Len() != 0 {
+			return "unexplained:value-copy:" + name, fmt.Sprintf("%s on a value copy of a fresh emitter: copy Len=%d PC=$%06x Bytes=% x, original Len=%d; want %d bytes in the copy only", desc(), cp.Len(), cp.PC(), cp.Bytes(), orig.Len(), ilen)
+		}
+	}
 	// the library's own CPUs: trace line and instruction length
 	for i := 0; i < 2; i++ {
 		m := rn.x.ms[i]
@@ -320,7 +348,7 @@ func replayC03(raw json.RawMessage) (string, error) {
 	if !ok {
 		return "", fmt.Errorf("unclassified method %s", c.Method)
 	}
-	rn := &c03Runner{x: newCPUCtx(), spec: spec, listing: c.Listing}
+	rn := &c03Runner{x: newCPUCtx(), spec: spec, listing: c.Listing, base: c.At}
 	sig, what := rn.check(c.Method, sp, c.Arg, c.P, true)
 	if sig == "" {
 		return "canonical encoding, length and decode agree", nil
@@ -440,7 +468,7 @@ func runC03(r *report.Run) {
 				nl++
 			}
 			if sig, what := rn.check(j.name, sp, arg, j.p, deep); sig != "" {
-				r.Violation(sig, what, c03Case{j.name, arg, j.p, deep, listing})
+				r.Violation(sig, what, c03Case{j.name, arg, j.p, deep, listing, rn.lastPC})
 			}
 		}
 		if listing && !j.deep && cnt == 1<<24 && j.hi != 0 {
@@ -485,8 +513,8 @@ func runC03(r *report.Run) {
 		r.Set("exhaustive_note", "quick tier: every operand value for all 8-/16-bit methods, all 2^24 values for JSL and LDA_long, and for the other long methods every value with at most two non-boundary bytes (three 2^16 planes x 6 boundary values); the thorough tier enumerates all 2^24 for every long method")
 	}
 	r.Set("rule", "every instruction method found by reflection x each of the 4 tracked (m,x) width states x every operand value of its operand type, with listing generation off and on: emitted bytes == opcode from the independent ISA table followed by the little-endian operand (destination then source bank for MVN), Len and PC advance by the architectural length, an independent decoder maps the bytes back to the same mnemonic and mode; width-guarded immediates must be refused exactly when the tracked width disagrees; a deep pass over boundary operands additionally repeats the call on an emitter without a target buffer (PC must advance by the same length) and has both CPU packages disassemble the bytes (same mnemonic, operand digits and mode features) and Step over them (same length); non-trivial = the call is legal in that width state (an instruction is really emitted)")
-	r.Sample(c03Case{"LDA_long", 0x7EF340, 0x20, true, false})
-	r.Sample(c03Case{"MVN", 0x7F7E, 0x00, true, true})
-	r.Sample(c03Case{"LDA_imm16_w", 0x1234, 0x20, false, false})
+	r.Sample(c03Case{"LDA_long", 0x7EF340, 0x20, true, false, 0})
+	r.Sample(c03Case{"MVN", 0x7F7E, 0x00, true, true, 0x00FFFE})
+	r.Sample(c03Case{"LDA_imm16_w", 0x1234, 0x20, false, false, 0})
 	r.Assume("method names promise their mnemonic and addressing mode (classification table of DESIGN Appendix D); methods found by reflection that the table does not know are listed as unclassified, not judged")
 }
